@@ -39,6 +39,18 @@ CHECKS = {
             "0..4 peripherals in Vec / sparse fixed storage, responsive/silent/faulty mixes, second master and second application (token-hold interruptions, global control mid-cycle): between two cycle_completed reports turns follow slot order, one request plus retransmissions per turn, no peripheral twice; event life-cycle automaton vs. is_live()/is_running() after every poll; every event needs its cause in that poll; hangs and panics count.",
             "Trusted: call log, events taken after every poll. Silent turns are not observable on the wire.",
             "deterministic simulation with fault injection; cycle/event accounting oracle"),
+    "C06": ("ring", "fault_enumeration", "6 C06",
+            "Ring worlds with a fault window: storms of dropped / bit-flipped / truncated / receiver-lost telegrams, collisions and noise, station crash (with and without restart, mid-transmission, right after a token to it), stalls, clock jumps, go-offline/online, constructed claim races, stale RX bytes. After the last disturbance the stations that are online must reach agreement within B_rec, crashed ones must be in nobody's LAS, no collision and cyclic token order afterwards, stability as in C02; a station that switches itself offline must have consumed two telegrams with its own source address.",
+            "Trusted: bus/PHY stub, fault injector, bound B_rec of DESIGN 5.4; DESIGN 5.6 for self-offline.",
+            "deterministic simulation with fault injection; recovery-within-bound oracle"),
+    "C13": ("ring", "exploration", "6 C13",
+            "Rings of 2..5 stations with applications of every appetite (never / sometimes / bursts / always), request kinds with and without reply, peers that answer or time out, TTR down to the builder minimum: every application request after the first of a token visit must start before previous token receipt + TTR (+ one poll period); in a stable ring the inter-receipt time of every station is bounded by TTR_max + one message cycle and GAP poll per station; a station with an always-ready application sends at least once per visit.",
+            "Trusted: wire times of token telegrams as the earliest reference of the station; the first visit after going online is exempt (no previous receipt); local clocks start at >= 0.",
+            "deterministic simulation (seeded schedules and application programs); hold-time and rotation monitor"),
+    "C15": ("ring", "exploration", "6 C15",
+            "Rings of 1..3 stations with 0..3 applications each (scripted traffic generators, LiveList), peers that answer correctly, late, with foreign addresses, with requests or tokens, or not at all: the call log of the FdlApplication callbacks is checked against the call model R7 (asked only while holding the token and with nothing outstanding; reply or time-out only to the requester, at most one; delivered reply admissible; round-robin order; nobody asked after all declined; no message cycle after the hold time except the first of a visit).",
+            "Trusted: call-log probe around every application, token holder derived from token telegrams on the bus.",
+            "deterministic simulation (seeded schedules and application programs); application call model as oracle"),
 }
 
 PENDING = ["C03", "C04", "C05", "C06", "C07", "C08", "C10", "C11", "C12", "C13", "C14", "C15", "C16", "C18"]
